@@ -314,6 +314,21 @@ func Generate(p Profile, n int, seed int64) []Script {
 
 		nops := 1 + rng.Intn(p.MaxOps)
 
+		// every fourth history of a profile with updates and deletions is built around what an operation
+		// may leave behind in the tree: a rule at a path P with backtracking off, another source's rule
+		// below P, a covering wildcard rule; then the rule at P goes away (deleted, or updated to another
+		// path) and possibly comes back
+		var planned []Step
+		if p.Mutations && i%4 == 3 {
+			if i%8 == 3 {
+				planned = g.leftover(rng)
+			} else {
+				planned = g.reorder(rng)
+			}
+
+			nops = len(planned)
+		}
+
 		for op := 0; op < nops; op++ {
 			src := fmt.Sprintf("s%d", 1+rng.Intn(p.Sources))
 			cur, exists := sets[src]
@@ -321,6 +336,9 @@ func Generate(p Profile, n int, seed int64) []Script {
 			var st Step
 
 			switch {
+			case planned != nil:
+				st = planned[op]
+				src = st.Src
 			case !exists:
 				st = Step{Kind: "add", Src: src, Rules: g.newSet(src, &pool)}
 			case !p.Mutations:
@@ -386,6 +404,105 @@ func Generate(p Profile, n int, seed int64) []Script {
 	}
 
 	return out
+}
+
+// leftover plans a history around remnants of removed rules (see Generate).
+func (g *gen) leftover(rng *rand.Rand) []Step {
+	a, b := g.pick(g.lits), g.pick(g.lits)
+	lit := func(v string) Tok { return Tok{T: "lit", V: v} }
+	mk := func(src string, e []Tok, bt string, methods []Method) Rule {
+		g.nid++
+
+		r := Rule{ID: fmt.Sprintf("%s-r%d", src, g.nid), Src: src, Methods: methods, Hosts: []Matcher{},
+			Routes: []Route{{Expr: e, Params: []Matcher{}}}, BtSet: bt, Bt: bt == "true"}
+
+		return r
+	}
+
+	base := []Tok{lit(a)}
+	if rng.Intn(2) == 0 {
+		base = []Tok{lit(b), lit(a)}
+	}
+
+	below := append(append([]Tok{}, base...), lit(b))
+
+	cover := append([]Tok{}, base[:len(base)-1]...)
+	if rng.Intn(2) == 0 {
+		cover = append(cover, Tok{T: "one", N: "x"})
+	} else {
+		cover = append(cover, Tok{T: "free", N: "rest"})
+	}
+
+	onlyGet := []Method{{M: "GET"}}
+	r1 := mk("s1", base, pick2(rng, "false", "unset"), onlyGet)
+	r2 := mk("s2", below, pick2(rng, "unset", "true"), []Method{})
+	r3 := mk("s3", cover, "unset", []Method{})
+
+	adds := []Step{
+		{Kind: "add", Src: "s1", Rules: []Rule{r1}},
+		{Kind: "add", Src: "s2", Rules: []Rule{r2}},
+		{Kind: "add", Src: "s3", Rules: []Rule{r3}},
+	}
+	rng.Shuffle(len(adds), func(i, j int) { adds[i], adds[j] = adds[j], adds[i] })
+
+	steps := adds
+
+	switch rng.Intn(3) {
+	case 0:
+		steps = append(steps, Step{Kind: "delete", Src: "s1"})
+	case 1: // the rule moves to another path
+		moved := mk("s1", append(append([]Tok{}, base...), lit("qux")), r1.BtSet, onlyGet)
+		moved.ID = r1.ID
+		steps = append(steps, Step{Kind: "update", Src: "s1", Rules: []Rule{moved}})
+	default: // gone and back with the other setting
+		back := mk("s1", base, "true", onlyGet)
+		steps = append(steps, Step{Kind: "delete", Src: "s1"}, Step{Kind: "add", Src: "s1", Rules: []Rule{back}},
+			Step{Kind: "delete", Src: "s1"})
+	}
+
+	return steps
+}
+
+// reorder plans a history whose updates only change the order of rules sharing a path expression
+// (the first one in rule-set order whose conditions hold is the one to use).
+func (g *gen) reorder(rng *rand.Rand) []Step {
+	a := g.pick(g.lits)
+	e := []Tok{{T: "lit", V: a}, {T: "one", N: "x"}}
+
+	if rng.Intn(2) == 0 {
+		e = []Tok{{T: "lit", V: a}}
+	}
+
+	mk := func(methods []Method) Rule {
+		g.nid++
+
+		return Rule{ID: fmt.Sprintf("s1-r%d", g.nid), Src: "s1", Methods: methods, Hosts: []Matcher{},
+			Routes: []Route{{Expr: append([]Tok{}, e...), Params: []Matcher{}}}, BtSet: "unset"}
+	}
+
+	r1, r2, r3 := mk([]Method{}), mk([]Method{{M: "GET"}, {M: "POST"}}), mk([]Method{{M: "GET"}})
+	v1 := []Rule{r1, r2, r3}
+	v2 := []Rule{r3, r2, r1}
+	v3 := []Rule{r2, r3, r1}
+
+	other := Rule{ID: "s2-rx", Src: "s2", Methods: []Method{}, Hosts: []Matcher{}, BtSet: "unset",
+		Routes: []Route{{Expr: []Tok{{T: "free", N: "rest"}}, Params: []Matcher{}}}}
+
+	steps := []Step{{Kind: "add", Src: "s1", Rules: v1}, {Kind: "add", Src: "s2", Rules: []Rule{other}},
+		{Kind: "update", Src: "s1", Rules: cloneRules(v2)}}
+	if rng.Intn(2) == 0 {
+		steps = append(steps, Step{Kind: "update", Src: "s1", Rules: cloneRules(v3)})
+	}
+
+	return steps
+}
+
+func pick2(rng *rand.Rand, a, b string) string {
+	if rng.Intn(2) == 0 {
+		return a
+	}
+
+	return b
 }
 
 func (g *gen) newSet(src string, pool *[][]Tok) []Rule {
